@@ -1,9 +1,10 @@
 (* Proofs about Model/Build.v over the schemas generated from the spec classes
    (Gen/Schemas.v): data accepted by a class's JSON schema satisfies the unchecked
    key / type assumptions of that class's constructor ("schema guards build"), hence
-   building a workflow list / action list never ends in an internal error - under
-   explicit hypotheses for the three places where the schema does NOT guard the
-   constructor, each of which is refuted by a concrete document. *)
+   building a workflow list / action list / workbook never ends in an internal error.
+   (Before fix 31aaf4b7 this held only under three hypotheses on the document, each
+   refuted by a witness; those witnesses are kept as regression facts: they are now
+   definition errors.) *)
 From Coq Require Import List String ZArith Bool Arith Lia.
 Require Import Mistral.Model.Jv Mistral.Model.Schema Mistral.Model.Norm Mistral.Model.Build Mistral.Gen.Schemas.
 Require Import Mistral.Proofs.SchemaProofs Mistral.Proofs.NormProofs.
@@ -151,40 +152,23 @@ Section Guards.
     destruct e; simpl in *; congruence.
   Qed.
 
-  (* WorkflowSpec: tasks is a dict; every task whose name the schema pattern covers is a dict *)
+  (* WorkflowSpec: the input entries are hashable or dicts; tasks is a dict *)
   Definition wf_schema_ok (S : schema) : bool :=
-    requires S "tasks" && input_schema_ok S &&
-    match prop_of "tasks" S with
-    | Some sub => has_type_kw TObj sub &&
-                  existsb (fun ps => Nat.eqb (fst ps) pat_word && has_type_kw TObj (snd ps)) (patprops_of sub)
-    | None => false
-    end.
+    requires S "tasks" && input_schema_ok S && prop_types S "tasks" [TObj].
 
   Lemma guards_wf S w :
     wf_schema_ok S = true -> validate re S (JObj w) = true ->
-    entries_ok (lookup "input" w) = true /\
-    exists ts, lookup "tasks" w = Some (JObj ts) /\
-               ((forall k x, In (k, x) ts -> re pat_word k = true) -> all_tasks_are_dicts ts = true).
+    entries_ok (lookup "input" w) = true /\ exists ts, lookup "tasks" w = Some (JObj ts).
   Proof.
     unfold wf_schema_ok. intros Hok Hv.
     apply andb_true_iff in Hok. destruct Hok as [Hok Htasks].
     apply andb_true_iff in Hok. destruct Hok as [Hreq Hin].
     split; [exact (guards_entries S w Hin Hv)|].
-    destruct (prop_of "tasks" S) as [sub|] eqn:Ep; [|discriminate].
-    apply andb_true_iff in Htasks. destruct Htasks as [Hobj Hpat].
     pose proof (requires_sound re S "tasks" w Hreq Hv) as Hpres.
     destruct (lookup "tasks" w) as [x|] eqn:El; [|discriminate].
-    pose proof (prop_sound re S "tasks" sub w x Ep Hv El) as Hx.
-    pose proof (has_type_kw_sound re TObj sub x Hobj Hx) as Ht.
-    destruct x as [| | | | |ts]; simpl in Ht; try discriminate.
-    exists ts. split; [reflexivity|]. intros Hnames.
-    apply existsb_exists in Hpat. destruct Hpat as [[p sub2] [Hps Hp]].
-    cbn [fst snd] in Hp. apply andb_true_iff in Hp. destruct Hp as [Hp Hobj2].
-    apply Nat.eqb_eq in Hp. subst p.
-    unfold all_tasks_are_dicts. apply forallb_forall. intros [k v] Hkv. cbn [snd].
-    pose proof (patprop_sound re sub ts pat_word sub2 k v Hx Hps Hkv (Hnames k v Hkv)) as Hvv.
-    pose proof (has_type_kw_sound re TObj sub2 v Hobj2 Hvv) as Hty.
-    destruct v; simpl in *; congruence.
+    pose proof (prop_types_sound re S "tasks" [TObj] w x Htasks Hv El) as Hty.
+    destruct x as [| | | | |ts]; simpl in Hty; try discriminate.
+    exists ts. reflexivity.
   Qed.
 
   (* TaskSpec: len(name), the command string, with-items *)
@@ -521,14 +505,12 @@ Section Walk.
     has_type_kw TObj S_DirectWorkflowTaskSpec = true /\ has_type_kw TObj S_ReverseWorkflowTaskSpec = true.
   Proof. vm_compute. auto. Qed.
 
-  (* the one assumption of TaskSpec the schema does not guard *)
-  Definition task_merge_ok (t : obj) : bool := merge_ok (lookup "input" t) (task_params pp t).
+  Lemma params_allowed_merge i p : params_allowed i p = true -> merge_ok i p = true.
+  Proof. unfold params_allowed, merge_ok. destruct p; [reflexivity|]. destruct i as [[| | | | |o]|]; congruence. Qed.
 
-  Lemma nocrash_task direct d :
-    match d with JObj t => task_merge_ok t = true | _ => True end ->
-    nocrash (walk_task re pp direct d).
+  Lemma nocrash_task direct d : nocrash (walk_task re pp direct d).
   Proof.
-    intros Hm. unfold walk_task. apply nocrash_step. intros Hv.
+    unfold walk_task. apply nocrash_step. intros Hv.
     destruct task_schemas_ok as [HD [HR [HoD HoR]]].
     assert (Hobj : has_type TObj d = true).
     { destruct direct; [exact (has_type_kw_sound re TObj _ d HoD Hv)|exact (has_type_kw_sound re TObj _ d HoR Hv)]. }
@@ -538,63 +520,34 @@ Section Walk.
     destruct Hg as [Hpre Hwi].
     apply nocrash_guard; [exact Hpre|]. apply nocrash_guard; [exact Hwi|].
     apply nocrash_andthen; [apply nocrash_policies|].
-    apply nocrash_guard; [exact Hm|].
+    destruct (params_allowed (lookup "input" t) (task_params pp t)) eqn:Ep; cbn [negb]; [|exact nocrash_dsl].
+    apply nocrash_guard; [exact (params_allowed_merge _ _ Ep)|].
     destruct direct; [apply nocrash_clauses|exact nocrash_ok].
   Qed.
-
-  (* the class of workflows for which the theorem holds: the three places the schema does not guard *)
-  Definition task_class (wf_type : jv) (kv : string * jv) : bool :=
-    re pat_word (fst kv) &&                                     (* the name is covered by the `tasks` pattern *)
-    match snd kv with
-    | JObj t => task_merge_ok (inject (fst kv) (set "type" wf_type t))   (* no inline params into a non-dict input *)
-    | _ => true
-    end.
-
-  Definition wf_class (w : obj) : bool :=
-    match dispatch_of w with DUnhashable => false | _ => true end &&   (* `type` is hashable *)
-    match lookup "tasks" w with
-    | Some (JObj ts) => forallb (task_class (wf_type_of w)) ts
-    | _ => true
-    end.
 
   Lemma wf_schemas_ok : wf_schema_ok S_DirectWorkflowSpec = true /\ wf_schema_ok S_ReverseWorkflowSpec = true.
   Proof. vm_compute. auto. Qed.
 
   Lemma nocrash_wf_body direct w :
-    present (lookup "name" w) = true ->
-    match lookup "tasks" w with
-    | Some (JObj ts) => forallb (task_class (wf_type_of w)) ts = true
-    | _ => True
-    end ->
-    nocrash (walk_wf_body re pp direct w).
+    present (lookup "name" w) = true -> nocrash (walk_wf_body re pp direct w).
   Proof.
-    intros Hname Hcls. unfold walk_wf_body. apply nocrash_step. intros Hv.
+    intros Hname. unfold walk_wf_body. apply nocrash_step. intros Hv.
     destruct wf_schemas_ok as [HD HR].
-    assert (Hg : entries_ok (lookup "input" w) = true /\
-                 exists ts, lookup "tasks" w = Some (JObj ts) /\
-                   ((forall k x, In (k, x) ts -> re pat_word k = true) -> all_tasks_are_dicts ts = true)).
+    assert (Hg : entries_ok (lookup "input" w) = true /\ exists ts, lookup "tasks" w = Some (JObj ts)).
     { destruct direct; [exact (guards_wf re _ w HD Hv)|exact (guards_wf re _ w HR Hv)]. }
-    destruct Hg as [Hent [ts [Hts Hdicts]]].
+    destruct Hg as [Hent [ts Hts]]. rewrite Hts.
+    destruct (is_empty_obj ts || present (lookup "version" ts)); [exact nocrash_dsl|].
     apply nocrash_guard; [rewrite Hname, Hent; reflexivity|].
     apply nocrash_andthen.
     - destruct (nonnull (lookup "task-defaults" w)); [apply nocrash_defaults|exact nocrash_ok].
-    - rewrite Hts in *. rewrite forallb_forall in Hcls.
-      apply nocrash_guard.
-      + apply Hdicts. intros k x Hkx. specialize (Hcls (k, x) Hkx). unfold task_class in Hcls.
-        apply andb_true_iff in Hcls. tauto.
-      + apply nocrash_each. intros [k v] Hkv. unfold walk_task_entry.
-        destruct (String.eqb k "version"); [exact nocrash_ok|].
-        destruct v as [| | | | |t]; try exact nocrash_dsl.
-        apply nocrash_task. specialize (Hcls (k, JObj t) Hkv). unfold task_class in Hcls.
-        apply andb_true_iff in Hcls. cbn [fst snd] in Hcls. tauto.
+    - apply nocrash_each. intros [k v] _. unfold walk_task_entry.
+      destruct (String.eqb k "version"); [exact nocrash_ok|].
+      destruct v as [| | | | |t]; try exact nocrash_dsl. apply nocrash_task.
   Qed.
 
-  Lemma nocrash_wf w :
-    present (lookup "name" w) = true -> wf_class w = true -> nocrash (walk_wf re pp w).
+  Lemma nocrash_wf w : present (lookup "name" w) = true -> nocrash (walk_wf re pp w).
   Proof.
-    intros Hname Hc. unfold wf_class in Hc. apply andb_true_iff in Hc. destruct Hc as [Hd Ht].
-    unfold walk_wf. destruct (dispatch_of w); try discriminate Hd; try exact nocrash_dsl;
-      (apply nocrash_wf_body; [exact Hname|]); destruct (lookup "tasks" w) as [[| | | | |ts]|]; auto.
+    intros Hname. unfold walk_wf. destruct (dispatch_of w); try exact nocrash_dsl; apply nocrash_wf_body; exact Hname.
   Qed.
 
   Lemma present_name_inject k m : present (lookup "name" (inject k m)) = true.
@@ -626,53 +579,29 @@ Section Walk.
     apply Hm. exact Hkv.
   Qed.
 
-  Definition member_class (kv : string * jv) : bool :=
-    match snd kv with JObj m => wf_class (inject (fst kv) m) | _ => true end.
-
-  Definition wf_list_class (d : jv) : bool :=
-    match or_empty d with JObj kvs => forallb member_class kvs | _ => true end.
-
-  (* SCHEMA GUARDS BUILD, workflow definitions: for every document (any JSON-like value, any
-     regex oracle that knows that "next" has no whitespace, any inline-parameter oracle) whose
-     workflows have a hashable `type`, task names matching ^\w+$ and no inline parameters
-     next to a non-dict `input`, get_workflow_list_spec_from_yaml does not end in an
-     internal error: it accepts or raises a definition error. *)
-  Theorem wf_list_no_internal_error d :
-    wf_list_class d = true -> nocrash (walk_wf_list re pp d).
+  (* SCHEMA GUARDS BUILD, workflow definitions: for every document (any JSON-like value), any
+     regex oracle that knows that "next" has no whitespace and any inline-parameter oracle,
+     get_workflow_list_spec_from_yaml does not end in an internal error: it accepts or raises
+     a definition error. *)
+  Theorem wf_list_no_internal_error d : nocrash (walk_wf_list re pp d).
   Proof.
-    intros Hc. unfold walk_wf_list, wf_list_class in *.
-    apply nocrash_list; [exact (proj1 list_schemas_ok)|].
-    intros k m Hin. destruct (or_empty d) as [| | | | |kvs]; try contradiction.
-    rewrite forallb_forall in Hc. specialize (Hc _ Hin). unfold member_class in Hc. cbn [fst snd] in Hc.
-    apply nocrash_wf; [apply present_name_inject|exact Hc].
+    unfold walk_wf_list. apply nocrash_list; [exact (proj1 list_schemas_ok)|].
+    intros k m _. apply nocrash_wf. apply present_name_inject.
   Qed.
 
-  (* ... action definitions: unconditionally *)
+  (* ... action definitions *)
   Theorem action_list_no_internal_error d : nocrash (walk_action_list re pp d).
   Proof.
     unfold walk_action_list. apply nocrash_list; [exact (proj2 list_schemas_ok)|].
     intros k m _. apply nocrash_action.
   Qed.
 
-  (* ... workbooks *)
+  (* ... workbooks, for any version-parsing oracle *)
   Variable fl : string -> bool.
 
-  Definition wb_class (d : jv) : bool :=
-    version_probe_ok (or_empty d) &&
-    match or_empty d with
-    | JObj wb => match nonnull (lookup "workflows" wb) with
-                 | Some (JObj sec) => forallb member_class (set "version" v20 sec)
-                 | _ => true
-                 end
-    | _ => true
-    end.
-
-  Theorem workbook_no_internal_error d :
-    wb_class d = true -> nocrash (walk_wb re pp fl d).
+  Theorem workbook_no_internal_error d : nocrash (walk_wb re pp fl d).
   Proof.
-    unfold wb_class, walk_wb. intros Hc. apply andb_true_iff in Hc. destruct Hc as [Hprobe Hcls].
-    apply nocrash_guard; [exact Hprobe|].
-    destruct (version_gate fl (or_empty d)); [|exact nocrash_dsl|unfold nocrash; simpl; congruence].
+    unfold walk_wb. destruct (negb (version_ok fl (or_empty d))); [exact nocrash_dsl|].
     apply nocrash_step. intros Hv.
     destruct (guards_workbook re _ Hv) as [wb [Ewb [Hname [Hact Hwf]]]]. rewrite Ewb in *.
     apply nocrash_guard; [exact Hname|].
@@ -684,19 +613,16 @@ Section Walk.
       destruct v; apply nocrash_action.
     - unfold walk_section. destruct (nonnull (lookup "workflows" wb)) as [x|] eqn:Ea; [|exact nocrash_ok].
       pose proof (Hwf x eq_refl) as Ho. destruct x as [| | | | |sec]; try discriminate Ho.
-      rewrite forallb_forall in Hcls.
-      apply nocrash_each. intros [k v] Hkv. cbn [fst snd].
+      apply nocrash_each. intros [k v] _. cbn [fst snd].
       destruct (String.eqb k "version"); [exact nocrash_ok|].
       destruct v as [| | | | |m]; try exact nocrash_dsl.
-      apply nocrash_wf; [apply present_name_inject|].
-      specialize (Hcls _ Hkv). exact Hcls.
+      apply nocrash_wf. apply present_name_inject.
   Qed.
 End Walk.
 
 (* ------------------------------------------------------------------------- *)
-(* none of the hypotheses can be dropped: concrete documents on which the model
-   of the code ends in an internal error (each is replayed on the real parser by
-   the suite's corpus)                                                         *)
+(* the documents that ended in an internal error before fix 31aaf4b7 (each is also
+   replayed on the real parser by the suite's corpus): now definition errors      *)
 
 Definition re0 : nat -> string -> bool :=
   re_of_table [(pat_nonspace, "next", true); (pat_word, "t1", true); (pat_word, "wf", true);
@@ -708,34 +634,25 @@ Definition fl0 : string -> bool := fun _ => false.
 Definition noop_task : jv := JObj [("action", JStr "std.noop")].
 Definition doc_of (wf : jv) : jv := JObj [("version", JStr "2.0"); ("wf", wf)].
 
-(* D4: a task that is not a dict under a name outside ^\w+$ *)
+(* a task that is not a dict under a name outside ^\w+$ *)
 Definition d4_doc : jv := doc_of (JObj [("tasks", JObj [("my-task", JStr "abc")])]).
-(* D5: inline parameters and an expression string as input *)
+(* inline parameters and an expression string as input *)
 Definition d5_doc : jv :=
   doc_of (JObj [("tasks", JObj [("t1", JObj [("action", JStr "std.echo output=1"); ("input", JStr "<% $.p %>")])])]).
-(* D3: unhashable polymorphic key *)
+(* unhashable polymorphic key *)
 Definition d3_doc : jv := doc_of (JObj [("type", JArr [JStr "direct"]); ("tasks", JObj [("t1", noop_task)])]).
+(* a task called version *)
+Definition d11_doc : jv := doc_of (JObj [("tasks", JObj [("version", noop_task); ("t1", noop_task)])]).
 
-Theorem guards_refuted_task_name :
-  re0 pat_nonspace "next" = true /\
-  walk_wf_list re0 pp0 d4_doc = (VCrash, [(CWfList, true); (CWfD, true)]).
-Proof. vm_compute. auto. Qed.
-
-Theorem guards_refuted_input_merge :
-  re0 pat_nonspace "next" = true /\
-  walk_wf_list re0 pp0 d5_doc = (VCrash, [(CWfList, true); (CWfD, true); (CTaskD, true); (CPolicies, true)]).
-Proof. vm_compute. auto. Qed.
-
-Theorem guards_refuted_dispatch :
-  walk_wf_list re0 pp0 d3_doc = (VCrash, [(CWfList, true)]).
-Proof. vm_compute. reflexivity. Qed.
-
-(* D1: the version probe on a scalar document; D9: a numeric version selects `return None` *)
-Theorem guards_refuted_version_probe :
-  walk_wb re0 pp0 fl0 (JNum 5 1) = (VCrash, []) /\
-  walk_wb re0 pp0 fl0 (JStr "version") = (VCrash, []) /\
-  walk_wb re0 pp0 fl0 (JObj [("version", JNum 2 1); ("name", JStr "wb")]) = (VNone, []).
-Proof. vm_compute. auto. Qed.
+Theorem regression_old_witnesses :
+  walk_wf_list re0 pp0 d4_doc = (VDsl, [(CWfList, true); (CWfD, true)]) /\
+  walk_wf_list re0 pp0 d5_doc = (VDsl, [(CWfList, true); (CWfD, true); (CTaskD, true); (CPolicies, true)]) /\
+  walk_wf_list re0 pp0 d3_doc = (VDsl, [(CWfList, true)]) /\
+  walk_wf_list re0 pp0 d11_doc = (VDsl, [(CWfList, true); (CWfD, true)]) /\
+  walk_wb re0 pp0 fl0 (JNum 5 1) = (VDsl, [(CWb, false)]) /\
+  walk_wb re0 pp0 fl0 (JStr "version") = (VDsl, [(CWb, false)]) /\
+  fst (walk_wb re0 pp0 fl0 (JObj [("version", JNum 2 1); ("name", JStr "wb")])) = VOk.
+Proof. vm_compute. repeat split; reflexivity. Qed.
 
 (* ------------------------------------------------------------------------- *)
 (* the per-class statements for the generated schemas                          *)
@@ -750,16 +667,12 @@ Proof. apply guards_task. vm_compute. reflexivity. Qed.
 
 Lemma guards_wf_direct re w :
   validate re S_DirectWorkflowSpec (JObj w) = true ->
-  entries_ok (lookup "input" w) = true /\
-  exists ts, lookup "tasks" w = Some (JObj ts) /\
-             ((forall k x, In (k, x) ts -> re pat_word k = true) -> all_tasks_are_dicts ts = true).
+  entries_ok (lookup "input" w) = true /\ exists ts, lookup "tasks" w = Some (JObj ts).
 Proof. apply guards_wf. vm_compute. reflexivity. Qed.
 
 Lemma guards_wf_reverse re w :
   validate re S_ReverseWorkflowSpec (JObj w) = true ->
-  entries_ok (lookup "input" w) = true /\
-  exists ts, lookup "tasks" w = Some (JObj ts) /\
-             ((forall k x, In (k, x) ts -> re pat_word k = true) -> all_tasks_are_dicts ts = true).
+  entries_ok (lookup "input" w) = true /\ exists ts, lookup "tasks" w = Some (JObj ts).
 Proof. apply guards_wf. vm_compute. reflexivity. Qed.
 
 Lemma guards_wf_list re d :
@@ -785,7 +698,7 @@ Definition pp1 : string -> obj :=
   pp_of_table [("std.echo output=1", [("output", JNum 1 1)]);
                ("count=2 delay=1", [("count", JNum 2 1); ("delay", JNum 1 1)])].
 
-Lemma good_doc_in_class :
-  re1 pat_nonspace "next" = true /\ wf_list_class re1 pp1 good_doc = true /\
+Lemma good_doc_accepted :
+  re1 pat_nonspace "next" = true /\
   fst (walk_wf_list re1 pp1 good_doc) = VOk /\ List.length (snd (walk_wf_list re1 pp1 good_doc)) = 10.
 Proof. vm_compute. auto. Qed.
